@@ -362,7 +362,10 @@ func (m *vC29Monitor) elect(ns *vC29Nodes, others []*Node, part string, op int, 
 	replicas := append([]*Node{ns.b}, others...)
 	for k, nd := range replicas {
 		var eb crypto.Hash
+		// the other replicas evaluate the same snapshot time at another local time
+		clock.MockDiff(time.Duration(1+k) * 37 * time.Hour)
 		panicked, val, stack := verifkit.Guard(func() { eb = nd.electSnapshotNode(o.op, now) })
+		clock.Reset()
 		if panicked {
 			r.Violation("C29|election|panic "+verifkit.PanicSite(stack), fmt.Sprintf("electSnapshotNode(%s) panicked on a replica: %v", o.name, val),
 				m.witness(ns, now, map[string]any{"operation": o.name}))
@@ -546,7 +549,7 @@ func TestVerif_C29(t *testing.T) {
 
 	// ---------- Part H: random histories ----------
 	t0 = time.Now()
-	nHist := r.N(250, 12000)
+	nHist := r.N(250, 6000)
 	for hi := 0; hi < nHist; hi++ {
 		target := vC29MinNodes + rng.Intn(vC29MaxNodes-vC29MinNodes+1)
 		h := vC29RandomHistory(rng, pool, epoch, 10+rng.Intn(60), target)
@@ -565,6 +568,7 @@ func TestVerif_C29(t *testing.T) {
 			rc := h.recs[rng.Intn(len(h.recs))]
 			instants = append(instants, rc.ts+1, rc.ts+uint64(1+rng.Intn(20))*uint64(time.Second), rc.ts+uint64(rng.Int63n(int64(OneDay))))
 		}
+		prefixes := make(map[int]*Node)
 		for _, now := range instants {
 			exact := false
 			for _, rc := range h.recs {
@@ -579,10 +583,21 @@ func TestVerif_C29(t *testing.T) {
 			cut := vC29CountBefore(h.recs, now)
 			var others []*Node
 			if cut < len(h.recs) && cut >= vC29MinNodes {
-				p, err := vC29LoadNode(h.recs[:cut], rng.Perm(cut), m.networkId, h.epoch, h.genesis)
-				if err == nil {
+				p := prefixes[cut]
+				if p == nil && len(prefixes) < 8 {
+					var err error
+					p, err = vC29LoadNode(h.recs[:cut], rng.Perm(cut), m.networkId, h.epoch, h.genesis)
+					if err != nil {
+						r.Inconclusive("LoadConsensusNodes failed: " + err.Error())
+						p = nil
+					} else {
+						prefixes[cut] = p
+						r.Count("history_prefix_replicas", 1)
+					}
+				}
+				if p != nil {
 					others = append(others, p)
-					r.Count("history_prefix_replicas", 1)
+					r.Count("history_instants_with_prefix_replica", 1)
 				}
 			}
 			var removeElected crypto.Hash
